@@ -77,14 +77,20 @@ def pin_to_bytes_rule(ctx, rep, rule="digits"):
     head = be[0][1]
     st = loop_state(se, head)
     pin = idx = arr = None
+    backfill = False
     for key, (init, step) in st.items():
         ph = phi_of(se, head, key)
         if strip(init) == ("param", 1):
             pin = (key, ph, step)
         elif strip(init)[:2] == ("int", 0):
             idx = (key, ph, step)
+        elif util.numnorm(init) in (("int", 10, "usize"), ("len", ("param", 2))) or (util.is_call(strip(init)) and strip(init)[1].endswith("<impl [T]>::len") and strip(strip(init)[2][0]) == ("param", 2)):
+            idx = (key, ph, step)
+            backfill = True
         elif key == ("deref", ("param", 2)):
             arr = (key, ph, step)
+    if pin and idx and arr and len(st) == 3 and backfill:
+        return pin_to_bytes_backfill(ctx, rep, rule, fn, se, be, pin, idx, arr)
     if not (pin and idx and arr) or len(st) != 3:
         rep.violation(rule, fn, "shape", "loop state is not (remaining pin, position, output array): %s" % [show(k) for k in st], body.loc())
         return
@@ -141,6 +147,39 @@ def pin_to_bytes_rule(ctx, rep, rule="digits"):
     rep.check(good, rule, fn, "reverse", "out[0..i] is reversed (most significant digit first) and returned", "the digits are not reversed in place / the returned slice is not out[0..i]", body.loc())
 
 
+def pin_to_bytes_backfill(ctx, rep, rule, fn, se, be, pin, idx, arr):
+    """the same digits written from the back: start = 10; while pin != 0 { start -= 1;
+    out[start] = pin % 10; pin /= 10 }; return out[start..] - most significant digit first
+    without a reversal (a u32 has at most 10 digits, so start never underflows: C14's matter)"""
+    body = se.body
+    env = {pin[1]: "pin", idx[1]: "i", arr[1]: "out"}
+    i1 = ("sub", S("i"), I(1))
+    got = {"pin": N(pin[2], env), "i": N(idx[2], env), "out": N(arr[2], env)}
+    want = {"pin": ("Div", S("pin"), I(10)), "i": i1, "out": ("upd", S("out"), i1, ("trunc", "u8", ("rem", S("pin"), I(10))))}
+    rep.check(got == want, rule, fn, "step", "per iteration: i -= 1; out[i] = pin % 10; pin /= 10 (filled from the back)", "digit extraction step is %s" % {k: arith.show(v) if isinstance(v, tuple) else v for k, v in got.items()}, body.loc())
+    loop = cfg.natural_loop(body, be[0])
+    sw = [(bb, i_) for bb, i_ in se.term_info.items() if i_.get("k") == "switch" and bb in loop]
+    good = False
+    if len(sw) == 1:
+        d = N(sw[0][1]["discr"], env)
+        tg = sw[0][1]["targets"]
+        if d == ("Ne", S("pin"), I(0)) and len(tg) == 1 and tg[0][0] == 0:
+            good = tg[0][1] not in loop and sw[0][1]["otherwise"] in loop
+        elif d == ("Eq", S("pin"), I(0)) and len(tg) == 1 and tg[0][0] == 0:
+            good = tg[0][1] in loop and sw[0][1]["otherwise"] not in loop
+    rep.check(good, rule, fn, "exit", "loop runs while pin != 0 (all digits, no leading zero)", "loop exit test is not `pin != 0`", body.loc())
+    calls = [se.term_info[b] for b in sorted(se.term_info) if se.term_info[b].get("k") == "call"]
+    views = [c for c in calls if c["name"].endswith("::index_mut")]
+    others = [c for c in calls if c not in views and not c["name"].endswith("<impl [T]>::len")]
+    good = False
+    r = strip(se.ret)
+    if len(views) == 1 and not others and util.is_call(r) and r[1].endswith("::index_mut") and len(r[2]) == 2:
+        rng = strip(r[2][1])
+        on_out = views[0]["locargs"][0] == ("ref", ("deref", ("param", 2)), True) or strip(views[0]["locargs"][0])[0] == "param"
+        good = on_out and rng[0] == "agg" and rng[2] == "std::ops::RangeFrom" and N(rng[4][0], env) == S("i")
+    rep.check(good, rule, fn, "reverse", "out[i..] is returned: most significant digit first, exactly the digits written", "the returned slice is not out[start..] of the back-filled array", body.loc())
+
+
 # ------------------------------------------------------------------------------------ remap_pin_grid
 
 def remap_pin_grid_rule(ctx, rep, rule="layout"):
@@ -162,20 +201,43 @@ def remap_pin_grid_rule(ctx, rep, rule="layout"):
             outer = (head, elem, src)
         elif src is not None and src[0] == "agg" and src[2] == "std::ops::Range":
             inner = (head, elem, src)
+    zipped = None
+    if not outer:
+        # result.iter_mut().zip((1..=10).rev()) (either order): slot k with radix 10 - k
+        from rules import loopsem
+        for head, (elem, src, lp) in fi.items():
+            if util.is_call(src) and src[1].endswith("::zip"):
+                sem = loopsem.Sem(ctx, se, lambda base: (lambda n: 10))
+                r_ = sem.item_at(src)
+                if r_ is not None and r_[0][0] == "tup" and len(r_[0][1]) == 2 and r_[1](0) == 10:
+                    its = r_[0][1]
+                    for f_slot in (0, 1):
+                        a_, b_ = its[f_slot], its[1 - f_slot]
+                        if a_[0] == "loc" and a_[2] == (1, 0) and b_ == ("cnt", (-1, 10)):
+                            tyl = body.local_ty(a_[1][1]) if a_[1][0] == "local" else None
+                            if tyl is not None and tyl.k == "array" and tyl.len == 10:
+                                zipped = (f_slot, a_[1])
+                                outer = (head, elem, src)
     if not outer or (len(fi) == 2 and not inner):
         rep.violation(rule, fn, "shape", "loops are not `for (k, i) in (1..=10).rev().enumerate()` / `for j in 0..n`", body.loc())
         return
     oh, oelem, osrc = outer
-    rv = strip(osrc[2][0])
-    rng_ok = util.is_call(rv) and rv[1].endswith("::rev") and util.is_call(strip(rv[2][0]), "std::ops::RangeInclusive::<Idx>::new")
-    if rng_ok:
-        a = [util.numnorm(x) for x in strip(rv[2][0])[2]]
-        rng_ok = a[0][:2] == ("int", 1) and a[1][:2] == ("int", 10)
-    rep.check(rng_ok, rule, fn, "radices", "radices i = 10, 9, ..., 1 with positions k = 0..9", "outer loop is not over (1..=10).rev().enumerate()", body.loc())
+    if zipped is None:
+        rv = strip(osrc[2][0])
+        rng_ok = util.is_call(rv) and rv[1].endswith("::rev") and util.is_call(strip(rv[2][0]), "std::ops::RangeInclusive::<Idx>::new")
+        if rng_ok:
+            a = [util.numnorm(x) for x in strip(rv[2][0])[2]]
+            rng_ok = a[0][:2] == ("int", 1) and a[1][:2] == ("int", 10)
+        rep.check(rng_ok, rule, fn, "radices", "radices i = 10, 9, ..., 1 with positions k = 0..9", "outer loop is not over (1..=10).rev().enumerate()", body.loc())
+    else:
+        rep.ok(rule, fn, "radices", "radices i = 10, 9, ..., 1 zipped with the slots k = 0..9 of the result array", body.loc())
     ost = loop_state(se, oh)
     seed = remapped = grid = None
     kterm = ("field", oelem, 0)
     iterm = ("field", oelem, 1)
+    if zipped is not None:
+        kterm = ("slot-position",)
+        iterm = ("field", oelem, 1 - zipped[0])
     arrays = []
     for key, (init, step) in ost.items():
         ph = phi_of(se, oh, key)
@@ -190,12 +252,28 @@ def remap_pin_grid_rule(ctx, rep, rule="layout"):
             remapped = (key, ph, step)
         else:
             grid = (key, ph, step)
+    zip_store = None
+    if zipped is not None:
+        # the result array is written through the zipped slot: exactly one store, in the radix loop
+        oloop = set()
+        for e in cfg.back_edges(body):
+            l_ = cfg.natural_loop(body, e)
+            if oh in l_:
+                oloop |= l_
+        slot = ("field", oelem, zipped[0])
+        stores = [(k_, v_) for k_, v_ in se.assigns.items() if v_[0][0] == "deref" and strip(v_[0][1]) == strip(slot)]
+        if len(stores) == 1 and stores[0][0][0] in oloop and grid is not None:
+            zip_store = stores[0][1][1]
+            remapped = (zipped[1], ("slot-array",), None)
     if not (seed and remapped and grid):
         rep.violation(rule, fn, "shape", "state is not (seed, remaining digits [0..9], result [0..9])", body.loc())
         return
     env = {seed[1]: "seed", remapped[1]: "R", grid[1]: "G", kterm: "k", iterm: "i"}
     rem = ("rem", S("seed"), S("i"))
-    got = {"seed": N(seed[2], env), "R": N(remapped[2], env)}
+    if zip_store is not None:
+        got = {"seed": N(seed[2], env), "R": ("upd", S("R"), S("k"), N(zip_store, env))}
+    else:
+        got = {"seed": N(seed[2], env), "R": N(remapped[2], env)}
     want = {"seed": ("Div", S("seed"), S("i")), "R": ("upd", S("R"), S("k"), ("idx", S("G"), rem))}
     # gap closing: remaining digits r+1..i move one place down (inner loop or copy_within)
     shift = None
@@ -224,6 +302,12 @@ def remap_pin_grid_rule(ctx, rep, rule="layout"):
     good = got == want
     rep.check(good, rule, fn, "step", "r = seed % i; result[k] = digits[r]; seed /= i; digits[r+1..i] moved one place down", "layout generation step differs from the factorial-base decoding: %s" % {k: (arith.show(v) if isinstance(v, tuple) and v and isinstance(v[0], str) else str(v)) for k, v in got.items() if got[k] != want[k]}, body.loc())
     r = strip(se.ret)
+    if zip_store is not None:
+        # the array whose slots were zipped, as the loop left it
+        src_call = [x for x in walk(osrc) if util.is_call(x) and x[1].endswith("<impl [T]>::iter_mut")]
+        good = len(src_call) == 1 and r[0] == "after" and r[1][3] == src_call[0][3] and r[2] == 0
+        rep.check(good, rule, fn, "result", "the permuted layout (the array whose slots the loop filled) is returned", "the returned array is not the generated layout", body.loc())
+        return
     rep.check(r == remapped[1] or r == strip(remapped[1]), rule, fn, "result", "the permuted layout is returned", "the returned array is not the generated layout", body.loc())
 
 
